@@ -23,7 +23,7 @@ ASSUMPTIONS = ['residual tolerance 1e-5*size (1e-3 with an arc) as stated by the
                'exceptions tolerated only for two arcs that are not both circular and unrotated',
                'curve sizes between 1 and 1e3']
 
-FAMILIES = ['cross', 'touch', 'miss_1e-3', 'miss_1e-7', 'far', 'endpoint', 'node', 'cross_small_B']
+FAMILIES = ['cross', 'touch', 'miss_1e-3', 'miss_1e-7', 'far', 'endpoint', 'node', 'cross_small_B', 'beyond_end']
 
 
 def kind(s):
@@ -50,6 +50,13 @@ def configure(aname, bname, fam, tA, tB, alpha, scale):
     elif fam == 'cross_small_B':
         # the second curve 250 times smaller than the first (a detail crossing a large stroke)
         B = isect.place(bname, tB, A, tA, alpha, scale * 0.004)
+    elif fam == 'beyond_end':
+        # A is a Line: B crosses the straight CONTINUATION of A, 7% of A's length past its end (or before its start)
+        if not isinstance(A, Line):
+            return A, None
+        ext = 1.07 if tA >= 0.5 else -0.07
+        ghost = Line(A.start, A.start + (A.end - A.start) * 2.0)
+        B = isect.place(bname, tB, ghost, ext / 2.0, alpha, scale)
     elif fam == 'touch':
         B = isect.place(bname, tB, A, tA, 0.0, scale)
     elif fam.startswith('miss'):
@@ -79,8 +86,17 @@ def shift(B, z):
     return type(B)(*[p + z for p in B.bpoints()])
 
 
+def curve_extent(s):
+    """the size of the CURVE (for an arc: of the arc itself, not of the ellipse it is cut from - a nearly straight
+    arc of radius 1e7 and chord 1 has size 1)"""
+    if isinstance(s, Arc):
+        pts = [s.point(k / 16.0) for k in range(17)]
+        return max(max(p.real for p in pts) - min(p.real for p in pts), max(p.imag for p in pts) - min(p.imag for p in pts), 1e-300)
+    return seg_size(s)
+
+
 def judge_pairs(A, B, pairs, case, acc, sig):
-    size = max(seg_size(A), seg_size(B))
+    size = max(curve_extent(A), curve_extent(B))
     has_arc = isinstance(A, Arc) or isinstance(B, Arc)
     tol = (1e-3 if has_arc else 1e-5) * size
     ok = True
@@ -385,6 +401,9 @@ def shards(tier, seed):
     out += [{'what': 'paths', 'p1': a, 'p2': b, 'pprov': pv} for a in PATHS for b in PATHS
             for pv in ('measured', 'loosely_measured', 'segments_loosely_measured', 'loosely_measured_reversed_twice', 'reversed_twice', 'parsed',
                        'strict_arcs', 'module_settings_changed_and_restored') if tier == 'thorough' or (a, b) in (('P_CC', 'P_LQ'), ('P_CL', 'P_zig'), ('P_LA', 'P_QA'), ('P_QA', 'P_CC'), ('P_hair', 'P_zig'), ('P_hair', 'P_LQ'), ('P_CC', 'P_hair'))]
+    # nearly straight arcs (tiny sweep) against lines and curves, both orders
+    out += [{'what': 'segments', 'A': a, 'B': b, 'thin': True} for x in AB.EXTRA_ARCS for y in ('L_diagonal', 'Q_generic', 'C_arch', 'L_shallow')
+            for a, b in ((x, y), (y, x))]
     # non-default options of the solvers (tol=, justonemode=), keyword and positional
     out += [{'what': 'segments', 'A': a, 'B': b, 'opt': oi} for a in SMALL_B_SHAPES + ['A_ellipse_3to1'] for b in SMALL_B_SHAPES + ['A_ellipse_3to1']
             for oi in range(1, len(SEG_OPTS))]
@@ -414,14 +433,22 @@ def run_shard(desc, tier, seed):
             for tA, tB, al in itertools.product(tp['tA'], tp['tB'], tp['alpha'][:2]):
                 check_config(desc['A'], desc['B'], fam, tA, tB, al, 1.0, acc, opt=SEG_OPTS[desc['opt']])
         return acc
+    if desc['what'] == 'segments' and desc.get('thin'):
+        for fam in ('cross', 'far', 'endpoint'):
+            for tA, tB, al in itertools.product((0.1, 0.5, 0.9), (0.1, 0.5, 0.9), (30, 90)):
+                check_config(desc['A'], desc['B'], fam, tA, tB, al, 1.0, acc)
+        return acc
     if desc['what'] == 'segments':
-        for sc in tp['scales']:
+        line_pair = desc['A'][0] == 'L' or desc['B'][0] == 'L'
+        for sc in tp['scales'] + ([1e-9, 1e9] if line_pair and desc['A'][0] != 'A' and desc['B'][0] != 'A' else []):
             for fam in FAMILIES:
                 for tA, tB, al in itertools.product(tp['tA'], tp['tB'], tp['alpha']):
                     if fam in ('touch', 'miss_1e-3', 'miss_1e-7') and al != tp['alpha'][0]:
                         continue
                     if fam == 'cross_small_B' and ((tA, tB) != (tp['tA'][0], tp['tB'][0]) or sc != 1.0 or
                                                    desc['A'] not in SMALL_B_SHAPES or desc['B'] not in SMALL_B_SHAPES):
+                        continue
+                    if sc in (1e-9, 1e9) and fam not in ('cross', 'beyond_end', 'endpoint', 'far'):
                         continue
                     if sc != 1.0 and subdivision_pair(desc['A'], desc['B']) and fam not in ('cross', 'endpoint', 'node'):
                         # the subdivision solver's tolerances are absolute: at scale 100 every miss / far
